@@ -66,6 +66,41 @@ async fn observe_all(w: &mut World, id: &str, step: usize, out: &mut impl Write)
     }
 }
 
+type Att = (sos_core::VaultId, sos_core::SecretId, sos_core::ExternalFileName, Vec<u8>);
+
+/// a file secret with two further external files attached to it (three blobs under one secret id) on
+/// the default folder; returns every external file the account's directory lists, with its plaintext
+async fn add_attachments(w: &World, a: &mut sos_account::LocalAccount) -> Vec<Att> {
+    use sos_client_storage::AccessOptions;
+    use sos_vault::secret::{Secret, SecretMeta, SecretRow};
+    let mut out = vec![];
+    let folder = *w.fslots.get("0").unwrap();
+    let mk = |tag: &str, n: usize| -> std::path::PathBuf {
+        let p = w.base.join(format!("attachment-{tag}.bin"));
+        std::fs::write(&p, format!("c19 attachment {tag} {}", "q".repeat(n)).into_bytes()).unwrap();
+        p
+    };
+    let Ok(secret) = Secret::try_from(mk("input", 777)) else { return out };
+    let meta = SecretMeta::new("Fatt".to_string(), secret.kind());
+    let Ok(r) = a.create_secret(meta, secret, AccessOptions { folder: Some(folder), ..Default::default() }).await else { return out };
+    for (i, len) in [(1usize, 300usize), (2, 1500)] {
+        if let (Ok((mut row, _)), Ok(att)) = (a.read_secret(&r.id, Some(&folder)).await, Secret::try_from(mk(&format!("att{i}"), len))) {
+            let ameta = SecretMeta::new(format!("Att{i}"), att.kind());
+            row.secret_mut().add_field(SecretRow::new(sos_core::SecretId::new_v4(), ameta, att));
+            let _ = a.update_secret(&r.id, row.meta().clone(), Some(row.secret().clone()), AccessOptions { folder: Some(folder), ..Default::default() }).await;
+        }
+    }
+    let paths = Paths::new_client(&w.devs[0].dir).with_account_id(&w.account_id);
+    if let Ok(files) = sos_external_files::list_external_files(&paths).await {
+        for f in files {
+            if let Ok(content) = a.download_file(f.vault_id(), f.secret_id(), f.file_name()).await {
+                out.push((*f.vault_id(), *f.secret_id(), *f.file_name(), content));
+            }
+        }
+    }
+    out
+}
+
 pub fn run(text: &str, cases_path: &str, out: &mut impl Write) {
     let rt = rt();
     let base = std::path::Path::new(cases_path).parent().unwrap().join("data-c19");
@@ -115,28 +150,13 @@ pub fn run(text: &str, cases_path: &str, out: &mut impl Write) {
             }
             // client side: an attachment (external file blob) on the main account, and a second account without
             // attachments in the same data directory whose name sorts first
-            let mut attach: Option<(sos_core::VaultId, sos_core::SecretId, sos_core::ExternalFileName, Vec<u8>)> = None;
+            let mut attach: Vec<Att> = vec![];
             let mut second_id: Option<sos_core::AccountId> = None;
             if side == "client" {
                 let acct = w.devs[0].bridge.account.clone();
                 let mut a = acct.lock().await;
-                let folder = *w.fslots.get("0").unwrap();
-                let content: Vec<u8> = format!("c19 attachment {}", "q".repeat(777)).into_bytes();
-                let p = w.base.join("attachment-input.bin");
-                std::fs::write(&p, &content).unwrap();
-                if let Ok(secret) = sos_vault::secret::Secret::try_from(p.clone()) {
-                    let meta = sos_vault::secret::SecretMeta::new("Fatt".to_string(), secret.kind());
-                    if let Ok(r) = a.create_secret(meta, secret, sos_client_storage::AccessOptions { folder: Some(folder), ..Default::default() }).await {
-                        if let Ok((row, _)) = a.read_secret(&r.id, Some(&folder)).await {
-                            if let sos_vault::secret::Secret::File { content: sos_vault::secret::FileContent::External { checksum, .. }, .. } = row.secret() {
-                                let name: sos_core::ExternalFileName = (*checksum).into();
-                                let ok = a.download_file(&folder, &r.id, &name).await.map(|b| b == content).unwrap_or(false);
-                                writeln!(out, "{id} !attachment created readable_before={ok}").unwrap();
-                                attach = Some((folder, r.id, name, content));
-                            }
-                        }
-                    }
-                }
+                attach = add_attachments(&w, &mut a).await;
+                writeln!(out, "{id} !attachment created files={}", attach.len()).unwrap();
                 drop(a);
                 let paths = Paths::new_client(&w.devs[0].dir);
                 let target = sos_backend::BackendTarget::FileSystem(paths);
@@ -211,13 +231,17 @@ pub fn run(text: &str, cases_path: &str, out: &mut impl Write) {
             };
             // the attachment and the second account after the upgrade
             let mut attach_after = "n/a".to_string();
-            if let (Some((folder, sid, name, content)), true) = (&attach, reopen == "ok" && side == "client") {
+            if !attach.is_empty() && reopen == "ok" && side == "client" {
                 let a = w.devs[0].bridge.account.lock().await;
-                attach_after = match a.download_file(folder, sid, name).await {
-                    Ok(b) if &b == content => "ok".to_string(),
-                    Ok(_) => "differs".to_string(),
-                    Err(e) => format!("err:{}", cls(e)),
-                };
+                let mut bad = vec![];
+                for (folder, sid, name, content) in &attach {
+                    match a.download_file(folder, sid, name).await {
+                        Ok(b) if &b == content => {}
+                        Ok(_) => bad.push("differs".to_string()),
+                        Err(e) => bad.push(format!("err:{}", cls(e))),
+                    }
+                }
+                attach_after = if bad.is_empty() { "ok".to_string() } else { format!("{}of{}:{}", bad.len(), attach.len(), bad[0]) };
             }
             let mut second_after = "n/a".to_string();
             if let (Some(sid2), true) = (second_id, side == "client") {
@@ -270,13 +294,7 @@ pub fn run(text: &str, cases_path: &str, out: &mut impl Write) {
             if side == "client" {
                 let acct = w.devs[0].bridge.account.clone();
                 let mut a = acct.lock().await;
-                let folder = *w.fslots.get("0").unwrap();
-                let p = w.base.join("attachment-input.bin");
-                std::fs::write(&p, format!("c19 attachment {}", "q".repeat(777)).into_bytes()).unwrap();
-                if let Ok(secret) = sos_vault::secret::Secret::try_from(p.clone()) {
-                    let meta = sos_vault::secret::SecretMeta::new("Fatt".to_string(), secret.kind());
-                    let _ = a.create_secret(meta, secret, sos_client_storage::AccessOptions { folder: Some(folder), ..Default::default() }).await;
-                }
+                let _ = add_attachments(&w, &mut a).await;
             }
             n += 1;
             for op in ["s0", "c0:d", "s0", "s1", "s0"] {
